@@ -1,6 +1,6 @@
 #!/bin/bash
 # usage: tools/seed_run.sh <seed-id> <PROP> [tier] [extra verify args] : apply the seeded change to /repo, run the check, undo.
-SID=$1; PROP=$2; TIER=${3:-quick}; shift 3 2>/dev/null
+SID=$1; PROP=$2; TIER=${3:-quick}; shift; shift; [ $# -gt 0 ] && shift
 cd /repo && git diff --quiet || { echo "/repo not clean"; exit 2; }
 git apply /verif/seeded/$SID/patch.diff || exit 2
 cd /verif && ./verify $PROP --tier $TIER "$@" > /tmp/seedrun-$SID.log 2>&1; RC=$?
